@@ -138,7 +138,9 @@ other(
     "C02",
     "Proved: routing of a path to its history (find_history_for_path naming contract), record creation "
     "(find_or_create_media_hash_for_path: exactly one record per path, indexed, fresh when new), entry append, digest functions (C01). "
-    "Bounded: the traversal generator and the children loop of create_for_folder_subcommand / create_for_single_files_subcommand.",
+    "post_order_lexicographic's per-directory kernel (children = the listed, non-excluded entries, sorted; region contract). "
+    "Bounded: the recursion of the traversal generator and the children loop of create_for_folder_subcommand / create_for_single_files_subcommand.",
+    static=True,
     assumptions=["pathspec.match_file is a function of (patterns, relative path)", "POSIX paths, no symlinked directories inside the tree"],
 )
 other(
@@ -184,25 +186,30 @@ other(
 )
 other(
     "C09",
-    "Bounded: verify_directory_hash_subcommand as a whole (200-line body with nested closures) on every single mutation at every "
-    "depth incl. the root, histories with -n / -sf generations and nested histories with differing formats. Proved kernel: the "
-    "directory hash functions (C07) it calls.",
-    prover=False,
-    technique="bounded small-world runs of the real command against the definition of C07 (the command body is outside the VC generator's subset); the directory-hash kernel is proved under C07",
+    "Proved: _compare_and_log_directory_hashes (result 2 iff content AND structure hash both equal the recorded ones, else 1 and the "
+    "mismatch is logged) and the exit decision of verify_directory_hash_subcommand as a region contract (exit 12 iff every calculated "
+    "format has a recorded failure), for all values of the failure bookkeeping; the directory-hash kernel it calls is proved under "
+    "C07. Bounded: the traversal / comparison loops of the 200-line body (nested closure, nonlocal) on every single mutation at every "
+    "depth incl. the root, histories with -n / -sf generations and nested histories with differing formats.",
 )
 other(
     "C10",
-    "Bounded: writer/reader round trip on enumerated model objects and on every manifest the small worlds produce, plus an "
-    "independent ElementTree reader. The lxml element builders and the event-driven reader are outside the VC generator's subset.",
-    prover=False,
-    technique="bounded round-trip runs of the real writer and reader with an independent XML reader (lxml builders / iterparse state machine are outside the VC generator's subset)",
+    "Proved (writer side, over an infoset model of lxml elements: tag, text, attrib, children): _media_hash_xml_element (path text, size "
+    "whenever the model has one incl. 0, modification date, one child per entry in format order carrying digest / action / hash date, "
+    "previousPath last), the two chain element builders and the whole content of the chain file (_write_chain_to_file: every loaded entry "
+    "unchanged and in order, then exactly one new entry with the C4 of the new manifest's bytes), _ignorespec_xml_element, "
+    "_ascmhlreference_xml_element. Bounded: the event-driven readers (hashlist_xml_parser.parse, chain_xml_parser.parse), "
+    "_directory_hash / _creator_info / _process_info builders, and the lxml serialisation itself - round trip on enumerated model "
+    "objects and on every manifest of the small worlds, with an independent ElementTree reader.",
+    assumptions=["lxml.builder.E / etree.tostring render the infoset faithfully for text without control characters", "None and '' are identified in creator text fields; author name '-' is the reader's sentinel"],
 )
 other(
     "C11",
-    "Bounded: lxml XMLSchema validation (the XSDs of the current tree) of every manifest / chain / collection file written over all "
-    "option combinations, failing runs, reference-only parents, empty folders.",
-    prover=False,
-    technique="bounded: independent XSD validation of every file written on enumerated worlds and option combinations",
+    "Proved: the structural facts the schema needs from _media_hash_xml_element (path first, one element per entry in ascending format "
+    "order, previousPath last, no attribute without value), chain entries (path, c4, sequencenr), <ignore> children. Bounded: lxml "
+    "XMLSchema validation (the XSDs of the current tree) of every manifest / chain / collection file written over all option "
+    "combinations, failing and aborted runs, reference-only parents, empty folders. The XSD itself is not compiled into a predicate.",
+    assumptions=["lxml.etree.XMLSchema is the validator"],
 )
 other(
     "C12",
@@ -216,20 +223,34 @@ other(
 )
 other(
     "C13",
-    "Bounded: byte comparison of manifests and chains of identical trees sealed at different root locations / spellings and under "
-    "permuted directory enumeration, frozen clock; relocated copies verified. Proved kernel: the functions are location-free "
-    "by their contracts (record paths via route / relpath; digests depend on bytes only).",
-    prover=False,
-    technique="bounded relational runs (same tree, different location / enumeration order) with byte comparison",
+    "Proved: the children of one directory computed by post_order_lexicographic (region contract up to the recursion): with os.listdir "
+    "specified as returning the entries in ARBITRARY order, the children are exactly the listed names not matched by the patterns - "
+    "matched relative to the ROOT, not to the absolute location - in strictly ascending name order, each with the file system's "
+    "directory flag (loop invariant with a ghost index map into the sorted listing); the recursion passes the same patterns and root "
+    "(call-site obligation). Bounded: the two-run statement itself - byte comparison of manifests and chains of identical trees sealed at "
+    "different root locations / spellings and under permuted enumeration, frozen clock; relocated copies verified.",
+    static=True,
+    assumptions=["list.sort() yields an ascending permutation", "os.listdir lists each entry once", "pathspec.match_file depends only on (patterns, path string)"],
+    technique=PYVC + " for the per-directory kernel of the traversal; bounded relational runs (same tree, different location / enumeration order) with byte comparison",
 )
-other("C16", "Bounded: sizes and ISO-8601 dates of written manifests against the file system under many TZ settings incl. DST switches.",
-      prover=False, technique="bounded runs under many TZ settings with an independent ISO-8601 parser")
+other("C16", "Proved: _media_hash_xml_element writes size = str(file_size) whenever the model has a size - including 0 - and "
+      "lastmodificationdate / hashdate = iso(date) exactly when present. Bounded: datetime_isostring (library glue; assumed contract) and "
+      "the capture of size / mtime in the command loops: sizes and ISO-8601 dates of written manifests against the file system under "
+      "16-26 TZ settings incl. DST switches in both hemispheres and the repeated hour.",
+      assumptions=["datetime / time zone database: naive.astimezone() attaches the offset in force at that local time (fold-aware)"])
 other("C17", "Proved: find_hash_entry_for_format, find_first_hash_entry_for_path (used to match renamed files). Bounded: the rename "
       "matching region of create -dr and the follow-up commands on all sets of simultaneous renames / moves.")
 other("C18", "Proved: append_file_hash with an action override (the entry carries exactly the given action), find_or_create_media_hash_for_path "
       "(one record per path). Bounded: the merge loops of flatten_history and verify -pl.")
-other("C19", "Bounded: info / info -sf output against the manifests read independently; no-history exit code.", prover=False,
-      technique="bounded runs comparing the printed lines with an independent reading of the manifests")
-other("C20", "Bounded: the real CLI entry points in subprocesses against a local server playing every listed network behaviour; exit code, "
-      "stdout and extra wall time compared with the command run without updater.", prover=False,
-      technique="bounded subprocess runs against a scripted local update server (thread schedules and real time are outside contracts)")
+other("C19", "Proved: log_child_histories (non-verbose): exactly one line per generation of the history, in list order, carrying its number and "
+      "creation date, directly after what was printed before, followed by the sections of the child histories (recursive contract over the "
+      "predicate hist_ok). Bounded: info_for_single_file, the upward search of info and click's output plumbing - info / info -sf output "
+      "against the manifests read independently; no-history exit code.")
+other("C20", "Proved (main-thread side, under the rely condition that the checker thread writes latest_version once, None -> Version): "
+      "Updater.needs_update raises nothing and returns a bool for every interleaving of that write with its four reads (volatile-field "
+      "havoc); thread obligations on the AST: daemon flag set before start, the thread's frame is {latest_version, finished} and it prints "
+      "nothing, requests calls sit inside its try, each CLI has exactly one result callback which joins with a literal timeout <= 1 s, "
+      "prints at most the one notice guarded by needs_update, returns None and never exits. Not decidable by contracts (assumed): what "
+      "the network does, real-time bounds of join, exceptions of the thread not reaching the main thread. Bounded: the real entry "
+      "points in subprocesses against a scripted local server (168 behaviours).", static=True,
+      technique="contracts on the main-thread functions with volatile-field havoc (pyvc) + thread-frame obligations on the AST; bounded subprocess runs against a scripted local update server for schedules and real time")
